@@ -19,7 +19,7 @@ func GenProps(r *Rand, id string) string {
 		b.WriteString("# a comment\n")
 	}
 	fmt.Fprintf(&b, "id = %s\n", id)
-	keys := []string{"a", "b", "c.x", "c.y", "d.0", "d.1", "e.0.k", "e.0.v", "long.key.path", "sp ace"}
+	keys := []string{"a", "b", "c.x", "c.y", "d.0", "d.1", "e.0.k", "e.0.v", "long.key.path", "sp ace", ".", "..", "x..y", ".lead", "trail.", "d.7", "[0]", "arr[1]", "k.[2].z"}
 	for _, k := range keys {
 		if r.Chance(1, 2) {
 			continue
@@ -27,6 +27,9 @@ func GenProps(r *Rand, id string) string {
 		sep := Pick(r, []string{" = ", "=", ": ", " "})
 		if k == "sp ace" {
 			k = "sp\\ ace"
+		}
+		if r.Chance(1, 5) {
+			b.WriteString("# comment for " + k + "\n")
 		}
 		var v string
 		switch r.Intn(4) {
